@@ -58,7 +58,7 @@ func (w *World) renderWalkers() []*ssa.Function {
 				}
 				for _, a := range c.Common().Args {
 					for _, f := range funcValues(stripChangeType(a)) {
-						out = append(out, f)
+						out = append(out, w.unwrapBound(f)) // a method value (pass.visit) is analysed as the method
 					}
 				}
 			}
@@ -534,6 +534,28 @@ func ruleRegistrationOrder(w *World, r *Report) {
 			for _, ins := range b.Instrs {
 				if c, ok := ins.(ssa.CallInstruction); ok && c.Common().IsInvoke() && c.Common().Method.Name() == "RegisterFuncs" {
 					regCall = ins
+				}
+			}
+		}
+		if regCall == nil {
+			// the per-renderer step extracted into a method: the call of that method stands for the registration
+			for _, b := range oc.Blocks {
+				for _, ins := range b.Instrs {
+					c, ok := ins.(*ssa.Call)
+					if !ok {
+						continue
+					}
+					cal := c.Common().StaticCallee()
+					if cal == nil || !w.InModule(cal) || cal.Blocks == nil {
+						continue
+					}
+					for _, hb := range cal.Blocks {
+						for _, hi := range hb.Instrs {
+							if hc, ok := hi.(ssa.CallInstruction); ok && hc.Common().IsInvoke() && hc.Common().Method.Name() == "RegisterFuncs" {
+								regCall = ins
+							}
+						}
+					}
 				}
 			}
 		}
